@@ -26,6 +26,7 @@ EXPLANATION = ("a: in IncrementalEngine::fire_all the indirect call of rule.acti
                "e: in the propagation functions the activation carries fact.handle of the fact whose data was evaluated and "
                "add_activation is dominated by the true edge of that evaluation.")
 FLOORS = {"view_methods": 4, "propagation_sites": 2}
+EXPLANATION += ' e (added): after the node evaluated to true for a fact every path to the next fact adds the activation (no further filter such as a cache of earlier matches). f: within one fire_all iteration mark_rule_fired and the push on the returned list happen exactly on the paths that run the action (path-effect sequences from the loop entry to the back edge / exits).'
 
 IE = "rete::propagation::IncrementalEngine"
 WM = "rete::working_memory::WorkingMemory"
